@@ -354,6 +354,9 @@ fn run_init(
         ..Default::default()
     };
 
+    // Reject what the generation below would reject before the configuration file is touched
+    config.validate()?;
+
     // Determine file format and save
     if is_tauri_config {
         // For tauri.conf.json, require it to exist
